@@ -12,6 +12,7 @@ PURE = {
     # address computations / header reads on containers taking &mut or raw ptr
     "alloc::vec::Vec::as_mut_ptr", "alloc::vec::Vec::as_ptr", "alloc::vec::Vec::len",
     "alloc::vec::Vec::is_empty", "alloc::vec::Vec::capacity",
+    "alloc::vec::Vec::as_slice", "alloc::vec::Vec::as_mut_slice",
     "slice::as_mut_ptr", "slice::as_ptr", "slice::len", "slice::is_empty",
     "slice::get", "slice::get_mut", "slice::get_unchecked", "slice::get_unchecked_mut",
     "slice::iter", "slice::iter_mut", "slice::chunks", "slice::first", "slice::last",
@@ -62,6 +63,7 @@ PURE = {
 # result points into the heap buffer / pointee of what arg0 points to
 RET_ARG0_BUF = {
     "alloc::vec::Vec::as_mut_ptr", "alloc::vec::Vec::as_ptr", "slice::as_mut_ptr", "slice::as_ptr",
+    "alloc::vec::Vec::as_slice", "alloc::vec::Vec::as_mut_slice",
     "slice::get", "slice::get_mut", "slice::get_unchecked", "slice::get_unchecked_mut",
     "slice::iter", "slice::iter_mut", "slice::chunks", "slice::first", "slice::last",
     "core::ops::deref::Deref::deref", "core::ops::deref::DerefMut::deref_mut",
@@ -87,6 +89,7 @@ RET_ARG0 = {
 HEADER_ONLY = {
     "alloc::vec::Vec::as_mut_ptr", "alloc::vec::Vec::as_ptr", "alloc::vec::Vec::len",
     "alloc::vec::Vec::is_empty", "alloc::vec::Vec::capacity",
+    "alloc::vec::Vec::as_slice", "alloc::vec::Vec::as_mut_slice",
     "slice::as_mut_ptr", "slice::as_ptr", "slice::len", "slice::is_empty",
     "slice::get_unchecked", "slice::get_unchecked_mut", "slice::get", "slice::get_mut",
     "slice::iter", "slice::iter_mut", "slice::chunks",
@@ -104,7 +107,8 @@ LEN_KEYS = {
     "alloc::collections::btree::set::BTreeSet::len",
 }
 
-DEREF_KEYS = {"core::ops::deref::Deref::deref", "core::ops::deref::DerefMut::deref_mut"}
+DEREF_KEYS = {"core::ops::deref::Deref::deref", "core::ops::deref::DerefMut::deref_mut",
+              "alloc::vec::Vec::as_slice", "alloc::vec::Vec::as_mut_slice"}
 
 # types with interior mutability (reads through & are not pure)
 INTERIOR_MUT = ("Mutex", "RwLock", "Atomic", "Cell", "RefCell", "UnsafeCell", "Once", "Condvar",
